@@ -343,7 +343,8 @@ func (w *World) loopHead(fr *Frame, st *State, h *ssa.BasicBlock, k int) {
 					}()
 				}
 			}
-			precise := isArr && idxSort == SInt && !w.loopWhole[key] && !declaredWhole
+			// in an inlined callee the writes of a loop are not checked against a policy: the keys it writes are forgotten whole
+			precise := fr.top && isArr && idxSort == SInt && !w.loopWhole[key] && !declaredWhole
 			freshOnly := w.loopFreshOnly[key]
 			var targets []Term
 			if precise {
